@@ -39,6 +39,8 @@ class LockstepLocalBackend(LocalBackend):
         self._stop_all_set = None
         self.log_vals = False
         self.ext_stopped = set()
+        self._mid_log: List[dict] = []
+        self._in_poll = False
 
     # ---- environment: talk to the puppet processes
     def _command(self, t: int, cmd: dict, wait_exit=False):
@@ -62,7 +64,11 @@ class LockstepLocalBackend(LocalBackend):
         return ack.read_text()
 
     def _observe(self):
-        for (a, t) in self.script.wev.get(self.obs, []):
+        self._run_events(self.script.wev.get(self.obs, []), self.log)
+        self.obs += 1
+
+    def _run_events(self, events, log):
+        for (a, t) in events:
             w = self.workers.get(t)
             if w is None or w.state != "busy":
                 continue   # not enabled in the real run: skipped, and not logged
@@ -70,30 +76,47 @@ class LockstepLocalBackend(LocalBackend):
                 w.runs[-1] += 1
                 r, i = len(w.runs), w.runs[-1]
                 ans = self._command(t, {"op": "emit", "report": {"m": self.values(t, r, i), "epoch": i, "run": r, "idx": i}})
-                self.log.append({"a": a, "t": t})
+                log.append({"a": a, "t": t})
                 if i == 1:     # first report of a run: did the process find a checkpoint when it started?
-                    self.log.append({"a": "Loaded", "t": t, "b": ans == "loaded"})
-                continue
+                    log.append({"a": "Loaded", "t": t, "b": ans == "loaded"})
             elif a == "W_Exit":
                 if w.runs[-1] == 0:
                     continue
                 self._command(t, {"op": "exit"}, wait_exit=True)
                 w.state = "ok"
+                log.append({"a": a, "t": t})
             elif a == "W_Fail":
                 # every second crash is a death by signal (negative return code) instead of exit code 1
                 self.nfail = getattr(self, "nfail", 0) + 1
                 self._command(t, {"op": "fail", "how": "signal" if self.nfail % 2 == 1 else "exit"}, wait_exit=True)
                 w.state = "fail"
-            else:
-                continue   # stops from outside the tuner are not part of this binding
-            self.log.append({"a": a, "t": t})
-        self.obs += 1
+                log.append({"a": a, "t": t})
+            # (stops from outside the tuner are not part of this binding)
 
     # ---- the code under test is called through super(); harness-side bookkeeping around it
     def _all_trial_results(self, trial_ids: List[int]):
         if not self._in_stop_all:
             self._observe()
-        return super()._all_trial_results(trial_ids)
+        self._in_poll = not self._in_stop_all
+        try:
+            return super()._all_trial_results(trial_ids)
+        finally:
+            self._in_poll = False
+
+    def stdout(self, trial_id: int):
+        """The poll of the LocalBackend is not atomic: it derives the status of a trial from the process and then parses
+        the log.  Worker events may fall between the two reads: for every second (poll, trial) pair the events scheduled for
+        the NEXT observation point are released right after the log has been read.  With the library's read order (status
+        first) such a poll is equivalent to an atomic one taken before these events, so they are logged after the Fetch
+        event; a back-end that reads in the other order hands out a final status with a stale log."""
+        lines = super().stdout(trial_id)
+        if getattr(self, "_in_poll", False) and (self.obs + trial_id) % 2 == 0:
+            nxt = self.script.wev.get(self.obs, [])
+            mine = [e for e in nxt if e[1] == trial_id]
+            if mine:
+                self.script.wev[self.obs] = [e for e in nxt if e[1] != trial_id]
+                self._run_events(mine, self._mid_log)
+        return lines
 
     def _schedule(self, trial_id: int, config):
         if trial_id in self.workers:
@@ -141,6 +164,8 @@ class LockstepLocalBackend(LocalBackend):
                          "res": [[t, r["run"], r["idx"]] for t, r in res],
                          "loaded": [[t, r.get("loaded"), r.get("ckreports")] for t, r in res],
                          "st": {str(t): s for t, (_, s) in st.items()}})
+        self.log.extend(self._mid_log)        # worker events that fell between the two reads of this poll
+        del self._mid_log[:]
         return st, res
 
     def start_trial(self, config, checkpoint_trial_id=None):
